@@ -539,17 +539,19 @@ func (ctx *Context) evaluate() {
 			}
 
 			step := IntType(1)
-			length := _b - _a
-			if length < 0 {
+			var length IntType
+			if _b >= _a {
+				length = _b - _a
+			} else {
 				step = -1
-				length = -length
+				length = _a - _b
 			}
-			length += 1
-
-			if length > 512 {
+			// length < 0 说明两端距离超出了整数范围
+			if length < 0 || length >= 512 {
 				ctx.Error = errors.New("不能一次性创建过长的数组")
 				return
 			}
+			length += 1
 
 			arr := make([]*VMValue, length)
 			index := 0
